@@ -20,7 +20,16 @@ RULE = ("YAML-serialisable configurations: 1..4 groups, num in {0,1,2,3,7,40}, a
         "output path absent / holding stale content / written twice / an open handle; command line: two-argument form for "
         "grouped and flat documents, console script under the C locale, one-argument (print) form, invalid file; all "
         "2^3-1 missing-key combinations over 1..3 groups in the three containers, each also as a YAML stream, always with "
-        "an output path; malformed dates, non-mapping documents and malformed YAML. Non-trivial: every configuration.")
+        "an output path; malformed dates, non-mapping documents and malformed YAML. Seedless containers (numpy's real "
+        "global generator seeded by the caller with the configuration's seed, no recorder): for every configuration above "
+        "the list of groups, the grouped mapping without `seed` and (one group) the flat mapping without `seed`, each as "
+        "object, re-used object and YAML stream or file (alternating), against the seeded mapping; twice (repeatability); "
+        "the file written for the list; a script seeding once and making two seedless releases / a seeded then a seedless "
+        "one, run twice; main() in a process that seeds first (2 quick / 12 thorough, configurations with random content); "
+        "plus a matrix of small 1..2-group configurations whose random content is of exactly one kind (polygon, "
+        "multipolygon, offset, GeoJSON file, range / gaussian / exponential / piecewise attribute, implicit and under "
+        "`attrs`, depth range) x all three seedless containers x object / stream / file, caller seeds special and random "
+        "below 2^32. Non-trivial: every configuration.")
 ASSUMPTIONS = ["yaml.safe_load / pandas.to_csv / the CLI are exercised, not modelled",
                "the one-argument command line prints pandas' default rendering of the table: it is compared for tables of "
                "four columns and at most 50 rows (no truncation, no wrapping), numbers at the display precision of 6 digits"]
@@ -103,6 +112,151 @@ def native_dates(rng, conf):
     return out if changed[0] else None
 
 
+def caller_seeded(seed, fn):
+    """fn() with numpy's *real* global generator seeded by the caller (what a script does for a configuration that
+    has no `seed` key: a list of groups has no place for one).  The recorder of common.py serves draws from a private
+    stream and ignores `seed(None)`, so it cannot see what happens to the real generator.  The state found is put back."""
+    st = np.random.get_state()
+    try:
+        np.random.seed(seed)
+        return fn()
+    finally:
+        np.random.set_state(st)
+
+
+def seedless_forms(groups, cols):
+    """the specification without a top-level `seed`: (name, factory of a fresh object, keeps `columns`)"""
+    out = [("list", lambda: copy.deepcopy(groups), False)]
+
+    def grouped():
+        d = {}
+        if cols is not None:
+            d["columns"] = list(cols)
+        d["groups"] = copy.deepcopy(groups)
+        return d
+    out.append(("grouped", grouped, True))
+    if len(groups) == 1:
+        def flat():
+            d = copy.deepcopy(groups[0])
+            if cols is not None:
+                d["columns"] = list(cols)
+            return d
+        out.append(("flat", flat, True))
+    return out
+
+
+def seedless_checks(ctx, mk, yaml, tmp, groups, cols, seed, ref, cs, unicode_yaml=False, vias=("object", "yaml_stream", "yaml_file")):
+    """The same specification in the containers that carry no seed, the caller seeding numpy's global generator:
+    equal to the seeded mapping (`ref`), repeatable, also as the 2nd release of a script.  Returns True when the
+    specification has random content (another caller seed gives another table)."""
+    site = SITE + "::make_release"
+    ref_nc = ref if cols is None else mk.make_release(dict(seed=copy.deepcopy(seed), groups=copy.deepcopy(groups)))
+    first = {}
+    for name, make, keeps_cols in seedless_forms(groups, cols):
+        want = ref if keeps_cols else ref_nc
+        ytext = yaml.safe_dump(make(), sort_keys=False, allow_unicode=unicode_yaml)
+        for via in vias:
+            if via == "object":
+                supply = make
+            elif via == "yaml_stream":
+                supply = lambda: io.StringIO(ytext)
+            else:
+                yfn = os.path.join(tmp, "seedless_%s.yaml" % name)
+                with open(yfn, "w", encoding="utf8") as f:
+                    f.write(ytext)
+                supply = lambda: yfn
+            scs = dict(cs, seedless_container=name, via=via, caller_seed=seed, supplied=ytext)
+            got = caller_seeded(seed, lambda: mk.make_release(supply()))
+            ok, msg = tables_equal(want, got)
+            ctx.oracle(ok, "C18.seedless.%s.%s_differs" % (name, via), site,
+                       "np.random.seed(%r); make_release(<%s without seed, %s>) differs from make_release(dict(seed=%r, ...)): %s"
+                       % (seed, name, via, seed, msg), scs)
+            again = caller_seeded(seed, lambda: mk.make_release(supply()))
+            ok, msg = tables_equal(got, again)
+            ctx.oracle(ok, "C18.seedless.not_reproducible", site,
+                       "np.random.seed(%r); make_release(<%s without seed, %s>) twice gives different tables: %s" % (seed, name, via, msg), scs)
+            ctx.branch("seedless.%s.%s" % (name, via))
+            first.setdefault(name, got)
+        # the same object supplied again (caller seeds before each call)
+        obj = make()
+        for k in range(2):
+            r_ = caller_seeded(seed, lambda: mk.make_release(obj))
+            ok, msg = tables_equal(want, r_)
+            ctx.oracle(ok, "C18.seedless.same_object_differs", site,
+                       "call %d with the same seedless %s object, np.random.seed(%r) before each call: %s" % (k + 1, name, seed, msg),
+                       dict(cs, seedless_container=name, caller_seed=seed))
+    # the written file of a seedless container against the text the seeded mapping writes
+    h_ref = io.StringIO(); mk.make_release(dict(seed=copy.deepcopy(seed), groups=copy.deepcopy(groups)), h_ref)
+    p_out = os.path.join(tmp, "seedless_out.rls")
+    if os.path.exists(p_out):
+        os.remove(p_out)
+    caller_seeded(seed, lambda: mk.make_release(copy.deepcopy(groups), p_out))
+    got_text = None
+    if os.path.exists(p_out):
+        with open(p_out, encoding="utf8") as f:
+            got_text = f.read()
+    ctx.oracle(got_text == h_ref.getvalue().replace("\r\n", "\n"), "C18.seedless.file_differs", site,
+               "np.random.seed(%r); make_release(<list of groups>, path) writes another file than make_release(dict(seed=%r, groups=...), handle)" % (seed, seed),
+               dict(cs, seedless_container="list", caller_seed=seed))
+    # a script that seeds once and makes releases one after the other: the whole run is repeatable, whether the
+    # earlier release was seedless too or carried its own seed (the later one continues the generator's stream)
+    def script_two():
+        return [mk.make_release(copy.deepcopy(groups)), mk.make_release(copy.deepcopy(groups))]
+
+    def script_after_seeded():
+        mk.make_release(dict(seed=copy.deepcopy(seed), groups=copy.deepcopy(groups)))
+        return [mk.make_release(dict(groups=copy.deepcopy(groups)))]
+    for tag, script, s0 in (("two_seedless", script_two, seed), ("after_seeded", script_after_seeded, 12345)):
+        r1 = caller_seeded(s0, script); r2 = caller_seeded(s0, script)
+        for k, (x, y) in enumerate(zip(r1, r2)):
+            ok, msg = tables_equal(x, y)
+            ctx.oracle(ok, "C18.seedless.sequence_not_reproducible", site,
+                       "script %s (np.random.seed(%r) once at its start) run twice: seedless release %d differs: %s" % (tag, s0, k + 1, msg),
+                       dict(cs, script=tag, caller_seed=s0))
+        ctx.branch("seedless.sequence." + tag)
+    other = 7 if seed != 7 else 8
+    alt = caller_seeded(other, lambda: mk.make_release(copy.deepcopy(groups)))
+    random_content = not tables_equal(first["list"], alt)[0]
+    ctx.branch("seedless.random_content" if random_content else "seedless.deterministic_content")
+    return random_content
+
+
+RANDOM_KINDS = ["loc.poly", "loc.multi", "loc.offset", "loc.geojson", "attr.range", "attr.gauss", "attr.exp", "attr.piece",
+                "attrs.gauss", "depth.range"]
+
+
+def random_kind_group(rng, kind, g, tmp, tag):
+    """a small group whose only random content is of the given kind"""
+    num = rng.choice([1, 3, 7])
+    date = rng.choice(["2015-04-01 00:00:00", ["2015-04-01T00:00:00", "2015-04-02T06:00:00"]])
+    conf = dict(num=num, date=date, location=[round(rng.uniform(-20, 30), 4), round(rng.uniform(50, 75), 4)], group_id=g + 1)
+    if kind.startswith("loc."):
+        want = kind[4:]
+        while True:
+            form, loc = relgen.gen_location(rng, True)
+            if form == want:
+                break
+        if form == "geojson":
+            path = os.path.join(tmp, "kind_%s_%d.geojson" % (tag, g))
+            with open(path, "w", encoding="utf-8") as f:
+                f.write(loc)
+            loc = path
+        conf["location"] = loc
+    elif kind == "attr.range":
+        conf["age"] = [1.0, 3.0]
+    elif kind == "depth.range":
+        conf["depth"] = [0, 10]
+    elif kind == "attr.gauss":
+        conf["weight"] = dict(distribution="gaussian", mean=5.0, std=1.0)
+    elif kind == "attrs.gauss":
+        conf["attrs"] = dict(weight=dict(distribution="gaussian", mean=40.0, std=10.0))
+    elif kind == "attr.exp":
+        conf["length"] = dict(distribution="exponential", mean=10.0)
+    elif kind == "attr.piece":
+        conf["q"] = dict(distribution="piecewise", knots=[0.0, 5.0, 20.0], cdf=[0.0, 0.3, 1.0])
+    return conf
+
+
 class Cli:
     """command-line runs are started in the background (process start-up is slow) and judged later"""
 
@@ -163,7 +317,7 @@ def run(ctx):
     exe_dir = os.path.dirname(sys.executable)
     script = os.path.join(exe_dir, "makrel")
     c_env = dict(os.environ, LC_ALL="C", LANG="C", PYTHONCOERCECLOCALE="0", PYTHONUTF8="0")
-    n_flat_cli = n_print = n_locale = 0
+    n_flat_cli = n_print = n_locale = n_seedless_cli = 0
 
     def cli_file_check(path, want, pred, site, what, case):
         def then(rc, out, err):
@@ -365,6 +519,25 @@ def run(ctx):
                 ctx.oracle(handle.getvalue().replace("\r\n", "\n") == file_text, "C18.file.handle_differs", SITE + "::make_release",
                            "the text written to an open handle differs from the file written by name", cs)
                 ctx.branch("file.handle")
+            # containers without a seed, numpy's real global generator seeded by the caller
+            ctx.branch("seedless")
+            has_random = seedless_checks(ctx, mk, yaml, tmp, groups, cols, seed, ref, cs, unicode_yaml,
+                                         vias=("object", "yaml_stream") if c % 2 == 0 else ("object", "yaml_file"))
+            # ... and through main() (the command line's entry point) in a process of its own that seeds first: the
+            # seedless grouped document (keeps `columns`) must write the file the seeded YAML file wrote
+            if has_random and n_seedless_cli < ctx.n(2, 12):
+                n_seedless_cli += 1; ctx.branch("seedless.cli_main")
+                p_in = os.path.join(tmp, "clinoseed%d.yaml" % c); p_out = os.path.join(tmp, "clinoseed%d.rls" % c)
+                nodoc = {k: v for k, v in conf.items() if k != "seed"}
+                ntext_ = yaml.safe_dump(nodoc, sort_keys=False, allow_unicode=unicode_yaml)
+                with open(p_in, "w", encoding="utf8") as f:
+                    f.write(ntext_)
+                code = ("import sys, runpy, numpy; numpy.random.seed(%r); sys.argv[1:] = [%r, %r]; "
+                        "runpy.run_module('ladim_plugins.release', run_name='__main__')" % (seed, p_in, p_out))
+                cli.launch([sys.executable, "-c", code],
+                           cli_file_check(p_out, file_text, "C18.seedless.cli_differs", MAIN,
+                                          "numpy.random.seed(%r) then `python -m ladim_plugins.release` (run_module) on the YAML document without `seed`:" % (seed,),
+                                          dict(cs, seedless_yaml=ntext_, caller_seed=seed)))
             # command line (a sample: process start-up is slow)
             # (run in the background on files of their own; judged against the file make_release wrote for the same YAML file)
             if c < ctx.n(4, 30):
@@ -430,6 +603,34 @@ def run(ctx):
                     ctx.oracle(good, "C18.cli.print_differs", SITE + "::main", "one-argument command line: " + detail, case)
                 cli.launch([sys.executable, "-m", "ladim_plugins.release", p_in], then, cwd=cwd)
         cli.drain()
+        # ---- every kind of random content x every seedless container x every way of supplying it (small groups whose
+        # only random content is of that kind; 1..2 groups; caller seeds as the special seeds and random ones)
+        for rep in range(ctx.n(1, 6)):
+            for kind in RANDOM_KINDS:
+                ng = 1 if (rep + RANDOM_KINDS.index(kind)) % 2 == 0 else 2
+                groups = [random_kind_group(ctx.rng, kind, g, tmp, "%d_%s" % (rep, kind)) for g in range(ng)]
+                if ng == 2 and ctx.rng.random() < 0.5:
+                    # the second group deterministic, or of another random kind
+                    groups[1] = random_kind_group(ctx.rng, ctx.rng.choice(["none"] + RANDOM_KINDS), 1, tmp, "%d_%s_b" % (rep, kind))
+                seed = ctx.rng.choice(SPECIAL_SEEDS) if ctx.rng.random() < 0.3 else ctx.rng.randrange(2**32)
+                cols = ctx.rng.choice([None, ["date", "longitude", "latitude", "depth"], ["latitude", "group_id", "date"]])
+                conf = dict(seed=seed)
+                if cols is not None:
+                    conf["columns"] = cols
+                conf["groups"] = groups
+                cs = dict(config=conf)
+                gj = {}
+                for g_ in groups:
+                    if isinstance(g_["location"], str):
+                        with open(g_["location"], encoding="utf-8") as f:
+                            gj[g_["location"]] = f.read()
+                if gj:
+                    cs["geojson_files"] = gj
+                ctx.case(key=("seedless", repr(conf)), nontrivial=True)
+                ctx.branch("seedless.kind." + kind)
+                ref = mk.make_release(copy.deepcopy(conf))
+                # (whether the table does depend on the caller's seed is counted: branch seedless.random_content)
+                seedless_checks(ctx, mk, yaml, tmp, groups, cols, seed, ref, cs, bool(rep % 2))
         # ---- error path
         drv = Driver()
         if getattr(ctx, "widened", False):
